@@ -168,6 +168,14 @@ def render(N, n, c):
         L += ["    v : u64 = %d;" % wide, "    s.x += v;"]
     elif kind == "cast":
         L += ["    w := %s;" % N.lit(t, c["tb"], twin=True), "    s.x = %s.(w);" % T]
+    elif kind == "castr":
+        # the same members (names and types) declared in the reverse order
+        ms = list(enumerate(zip(t["ms"], c["tb"]["fs"])))
+        ms.reverse()
+        name = "Rv%d" % len(N.decls)
+        N.decls.append("%s :: struct { %s };" % (name, ", ".join("f%d: %s" % (i, N.texpr(m[1])) for i, (m, f) in ms)))
+        L += ["    w := %s.{ %s };" % (name, ", ".join("f%d = %s" % (i, N.lit(m[1], f)) for i, (m, f) in ms)),
+              "    s.x = %s.(w);" % T]
     elif kind == "castw":
         wt, wl = widen(N, t, c["tb"])
         L += ["    w : %s = %s;" % (wt, wl), "    s.x = %s.(w);" % T]
@@ -264,9 +272,10 @@ def run(chk):
     chk.cov["exhaustive"] = True
     chk.cov["rule"] = ("every behaviour of Memory.tla: 28 value types (scalars, structs with odd sizes and inner "
                        "padding, arrays, enums, optionals, error unions) and all-bytes structs of the sizes in "
-                       "ByteSizes x 9 store kinds (copy, literal/conversion, payload or variant variable, "
-                       "argument+return by value, through ^mut, struct cast, array element 0 / 1, local between "
-                       "guard locals) x 2 stored values")
+                       "ByteSizes x 14 store kinds (copy, literal/conversion, payload or variant variable, "
+                       "argument+return by value, through ^mut, struct cast from a twin / from wider members in "
+                       "another order / from the same members in reverse order, array element 0 / 1, local between "
+                       "guard locals, literal in reverse member order, compound assignment) x 4 stored values")
 
 
 def replay(path):
